@@ -779,7 +779,7 @@ theorem sortLoop_spec {inp : List Entry} (hnc : NoLinkCycle inp) (allow : Bool) 
             · exact absurd h' (not_selfReach hnc _)
           · rw [← hb]; exact hsteps
         · rw [hmissed]
-          simp [missedOf, List.filter_cons, hres]
+          simp [missedOf, hres]
         · intro ha l' hl'
           rcases List.mem_cons.mp hl' with rfl | hl''
           · exact hmiss
@@ -814,7 +814,7 @@ theorem sortLoop_spec {inp : List Entry} (hnc : NoLinkCycle inp) (allow : Bool) 
           · refine ⟨⟨hreach, fun hnm => absurd hmiss hnm⟩, ?_⟩
             rw [← hb]; exact hsteps
           · rw [hmissed]
-            simp [missedOf, List.filter_cons, hres]
+            simp [missedOf, hres]
           · intro ha; cases ha
 
 /-! ## Dumping the rest -/
@@ -1164,6 +1164,15 @@ theorem landmarkFor_reg (prio : List String) :
     (landmarkFor prio).isReg = true ∧ (landmarkFor prio).size = 1 := by
   unfold landmarkFor
   split <;> exact ⟨rfl, rfl⟩
+
+theorem landmarkFor_nil : landmarkFor [] = landmarkEntry noPrefetchLandmark := rfl
+
+theorem landmarkFor_cons (l : String) (ls : List String) :
+    landmarkFor (l :: ls) = landmarkEntry prefetchLandmark := rfl
+
+theorem sortEntries_nil (es : List Entry) (allow : Bool) :
+    sortEntries es [] allow = .ok (landmarkEntry noPrefetchLandmark :: importTar es) [] := by
+  simp [sortEntries, sortLoop, dump, landmarkFor]
 
 /-- Everything the property theorems need about a run of `sortEntries`, in one place. -/
 theorem sortEntries_structure {es : List Entry} (prio : List String) (allow : Bool)
